@@ -121,9 +121,10 @@ def gen(seed, tier):
         return gen_idxrace(r, tier)
     if x0 < 0.14 or os.environ.get('ZSIM_C08_POOL_ONLY'):
         return gen_poolrace(r, tier)
-    if x0 > 0.9 and (tier == 'thorough'
-                     or os.environ.get('ZSIM_C08_BLOBRACE')):
-        # blobs and threads in one world (thorough tier)
+    if x0 > (0.9 if tier == 'thorough'
+            or os.environ.get('ZSIM_C08_BLOBRACE') else 0.96):
+        # blobs and threads in one world (one case in ten of the thorough
+        # tier, one in twenty-five of the quick tier)
         from . import c08blob
         return c08blob.gen(r, tier)
     arm = r.choice(('sched', 'sched', 'crash', 'fail'))
@@ -693,7 +694,7 @@ LEVEL_NOTE = ('sched/crash arms: <= 3 clients x <= 6 transactions, <= 2 '
               'packers; crash cuts at op granularity (torn writes of the '
               '.pack file are not cut byte-wise: the .pack file is never '
               'read back before the swap); fail arm uses pack_gc=False '
-              'histories; thorough tier only: a blobrace arm (<= 3 threads '
+              'histories; one case in 25 (thorough: in 10): a blobrace arm (<= 3 threads '
               'committing or aborting blobs on a blob-enabled FileStorage '
               'beside <= 2 packers, pre-emption also at every mutating '
               'operation on the blob directory, os.makedirs level by level); '
